@@ -325,4 +325,24 @@ theorem tie_parseTokenCalls (secret prev : String) (hasPrev lead : Bool) (err : 
     Extracted.C18.parseTokenCalls secret prev hasPrev lead err = GoZero.C18.parseTokenCalls secret prev hasPrev lead err := by
   cases hasPrev <;> cases lead <;> rfl
 
+/-- `cryptionResponseWriter.flush` TRANSLATED, for every outcome of its four conditions: nothing buffered ⇒ nothing at all;
+encryption fails ⇒ 500 and nothing else; otherwise the base64 of the ciphertext is written to the underlying writer ONCE —
+and a write error or a short write changes NOTHING (both branches only log): the list does not depend on them -/
+theorem tie_flushEffects (empty encErr writeErr short : Bool) : flushEffects empty encErr writeErr short =
+    (if empty then []
+     else "codec.EcbEncrypt(key, w.buf.Bytes())" ::
+       (if encErr then ["w.WriteHeader(http.StatusInternalServerError)"]
+        else ["base64.StdEncoding.EncodeToString(content)", "io.WriteString(w.ResponseWriter, body)"])) := by
+  cases empty <;> cases encErr <;> cases writeErr <;> cases short <;> rfl
+
+/-- … which is the model's `flushResp`: no reply ⇒ no body and status 200; a key the cipher refuses ⇒ 500; otherwise the
+base64 ciphertext -/
+theorem tie_flush_model (C : BlockCipher) (key seen out : Bytes) (we sh : Bool) :
+    (flushEffects out.isEmpty (ecbEncrypt C key out).isNone we sh = [] ↔ out.isEmpty = true) ∧
+    ("w.WriteHeader(http.StatusInternalServerError)" ∈ flushEffects out.isEmpty (ecbEncrypt C key out).isNone we sh ↔
+      (out.isEmpty = false ∧ (flushResp C key seen out).status = 500)) := by
+  rw [tie_flushEffects]
+  unfold flushResp
+  cases ho : out.isEmpty <;> cases he : ecbEncrypt C key out <;> simp
+
 end GoZero.C18.TieRest
